@@ -18,6 +18,8 @@ def configs(ctx):
         for n in (1, 2, 3):
             out.append(dc(op="dp", n=n, outlier_prob=op_, data_seed=21 + n))
             out.append(dc(op="prg", n=n, outlier_prob=op_, data_seed=31 + n, alpha=2.5))
+    out.append(dc(op="dp", n=3, data_seed=58, outlier_prob=0.2, hetero=1))
+    out.append(dc(op="prg", n=3, data_seed=59, outlier_prob=0.2, hetero=1, alpha=1.7))
     out.append(dc(op="dp", n=4, data_seed=25, alpha=0.4, samples=2))
     out.append(dc(op="dp", n=4, data_seed=26, outlier_prob=0.1))
     out.append(dc(op="prg", n=4, data_seed=27, alpha=3.0))
